@@ -166,8 +166,11 @@ pub fn history(cfg: &Cfg, rep: &mut Report, fl: Fl, h: u64, steps: usize, mode: 
     let min_temp = if h % 2 == 0 { 1 } else { 16 };
     let w = World::new(100 + rng.below(30) as u32, min_temp);
     let e = &w.env;
-    let n = 4;
-    let u = w.accounts(n);
+    // four accounts and, as a fifth party, the token contract's OWN address: it can be named as owner,
+    // recipient, approved account or operator like anybody else, but nothing can be signed in its name
+    // (it is no account contract), so whatever it owns stays where it is
+    let n = 5;
+    let mut u = w.accounts(n);
     let s = |x: &str| SString::from_str(e, x);
     let c = match fl {
         Fl::Base | Fl::BaseExplicit => e.register(NftBase, ()),
@@ -178,6 +181,8 @@ pub fn history(cfg: &Cfg, rep: &mut Report, fl: Fl, h: u64, steps: usize, mode: 
         Fl::ExEnum => e.register(examples::nft_enumerable::ExampleContract, (s("u/"), s("N"), s("N"), u[OWNER].clone())),
         Fl::ExCons => e.register(examples::nft_consecutive::ExampleContract, (s("u/"), s("N"), s("N"), u[OWNER].clone())),
     };
+    u[n - 1] = c.clone();
+    let u = u;
     let t = Tok { w: &w, c: c.clone(), fl, u: u.clone() };
     let mut m = Model::default();
     rep.op(format!("deploy nft {} min_temp_ttl={min_temp} ledger={}", fl.name(), w.ledger()));
@@ -365,7 +370,10 @@ pub fn history(cfg: &Cfg, rep: &mut Report, fl: Fl, h: u64, steps: usize, mode: 
                 let mask = rng.below(1 << n);
                 (0..n).filter(|i| mask >> i & 1 == 1).collect()
             };
-            authorized = principal.map_or(true, |pr| signers.contains(&pr));
+            authorized = principal.map_or(true, |pr| pr != n - 1 && signers.contains(&pr));
+            if principal == Some(n - 1) {
+                rep.count("calls_needing_the_token_contracts_own_signature");
+            }
             let inv = Inv::new(&c, f, av.clone());
             let entries: Vec<(Address, Inv)> = signers.iter().map(|i| (u[*i].clone(), inv.clone())).collect();
             w.auth(&entries);
